@@ -9,6 +9,7 @@ import z3
 
 from ..core import run_check, CheckerError
 from ..poly import P, normal
+from .. import pycheck
 from .. import pysym, shims, absnp, eigctx, kharness as K, spec_panel as S, panelctx
 from ..pysym import Interp, integer, real, to_z3, SymRaise, Obj
 from ..absnp import AArr, T
@@ -93,6 +94,20 @@ def check_bay_fext(led):
                 probs.append('skin load vector has length %s' % getattr(r, 'length', None))
             elif len(r.stores) != len(forces):
                 probs.append('%d contributions for %d forces' % (len(r.stores), len(forces)))
+            else:
+                # contribution q is  fx*g[0] + fy*g[1] + fz*g[2]  with g filled by fg at (x_q, y_q) for the bay's skin domain
+                p0 = bay.attrs['panels'][0]
+                for q, (st, force) in enumerate(zip(r.stores, forces)):
+                    key, val = st[0], st[1]
+                    if key != slice(None) or not hasattr(val, 'terms') or len(val.terms) != 3:
+                        probs.append('force %d: contribution is not a combination of the three rows of the basis matrix' % q)
+                        continue
+                    for d, (coef, (row, fill)) in enumerate(val.terms):
+                        if row != d or not normal((coef if isinstance(coef, P) else P.const(coef)) - force[2 + d]).is_zero():
+                            probs.append('force %d: row %s weighted with %s, expected row %d with component %d of the force' % (q, row, coef, d, d))
+                        dd = pycheck.diff_kernel(fill, 'fg', 'clt_bardell_field', dict(x=force[0], y=force[1]),
+                                                 {k_: p0.attrs[k_] for k_ in ('a', 'b', 'm', 'n')})
+                        probs += ['force %d: %s' % (q, x_) for x_ in dd]
             report(led, name, func, probs)
 
 
